@@ -3101,6 +3101,8 @@ func (c S3ApiController) DeleteObjects(ctx *fiber.Ctx) error {
 			BucketOwner: parsedAcl.Owner,
 			EvSender:    c.evSender,
 			EventName:   s3event.EventObjectRemovedDeleteObjects,
+
+			FailedObjects: res.Error,
 		})
 }
 
@@ -3982,6 +3984,8 @@ type MetaOpts struct {
 	ObjectETag    *string
 	VersionId     *string
 	Status        int
+	// DeleteObjects: entries reported as failed
+	FailedObjects []types.Error
 }
 
 func SendResponse(ctx *fiber.Ctx, err error, l *MetaOpts) error {
@@ -4101,6 +4105,8 @@ func SendXMLResponse(ctx *fiber.Ctx, resp any, err error, l *MetaOpts) error {
 			ObjectETag:  l.ObjectETag,
 			VersionId:   l.VersionId,
 			EventName:   l.EventName,
+
+			FailedObjects: l.FailedObjects,
 		})
 	}
 
